@@ -91,7 +91,7 @@ def traced_run(w, rng, n, cb, s, e, nfiles=3, coin='bitcoin', h0=0):
     d.write()
     tr = w.sub('trace')
     dump = w.mk('out') if cb in FILECB else None
-    r = run.run_parser(d.path, cb, dump=dump, coin=coin, start=s if s else None, end=e, trace=tr, skip='spend,create,eval')
+    r = run.run_parser(d.path, cb, dump=dump, coin=coin, start=s if s else None, end=e, trace=tr, skip='spend,create,eval,dump_row,bal_row')
     return tr, r
 
 
